@@ -474,6 +474,40 @@ fn process_via_actor(bytes: &[u8]) -> Option<Result<(Vec<SignedEntry>, Vec<Signe
     Some(out)
 }
 
+/// The single remote insert through the store actor (`SyncHandle::insert_remote`, what the gossip
+/// receive loop calls): verdict, replica content, subscriber events and the node's own count of
+/// entries received from peers.
+fn present_direct_via_actor(cand: &SignedEntry, ok: bool) -> Vec<(&'static str, String)> {
+    use crate::sut::block_on_park;
+    use iroh_docs::actor::{OpenOpts, SyncHandle};
+    let mut bad = vec![];
+    let ns = ns_id(0);
+    let sut = Sut::memory_with(&[0]);
+    let h = SyncHandle::spawn(sut.store, None, "c03".into());
+    let (tx, rx) = async_channel::unbounded();
+    block_on_park(h.open(ns, OpenOpts::default().sync().subscribe(tx))).expect("open");
+    let before = h.metrics().new_entries_remote.get();
+    let res = block_on_park(h.insert_remote(ns, cand.clone(), PEER, ContentStatus::Missing));
+    let counted = h.metrics().new_entries_remote.get() - before;
+    let dump = block_on_park(crate::sut::handle_dump(&h, ns)).unwrap_or_default();
+    let events = drain(&rx);
+    if res.is_ok() != ok {
+        bad.push(("accepted_iff_predicate", format!("SyncHandle::insert_remote: {} but the predicate says {}", if res.is_ok() { "accepted" } else { "refused" }, if ok { "acceptable" } else { "not acceptable" })));
+    }
+    let want: Vec<SignedEntry> = if ok { vec![cand.clone()] } else { vec![] };
+    if dump != want {
+        bad.push((if ok { "valid_entry_stored" } else { "invalid_entry_not_stored" }, format!("through the store actor: the replica holds {}", show_entries(&dump))));
+    }
+    if events != want {
+        bad.push(("events_exactly_for_applied_entries", format!("through the store actor: events={}", show_entries(&events))));
+    }
+    if counted != want.len() as u64 {
+        bad.push(("counted_iff_inserted", format!("through the store actor: the node counts {counted} entries received from peers, {} entered", want.len())));
+    }
+    let _ = block_on_park(h.shutdown());
+    bad
+}
+
 fn present_in_message_via_actor(cand_bytes: &[u8], cand: &SignedEntry, ok: bool, layout: &[Vec<bool>]) -> Option<Vec<(&'static str, String)>> {
     let mut bad = vec![];
     let (bytes, _fill) = assemble(layout, Some(cand_bytes), false);
@@ -691,8 +725,16 @@ fn check_candidate(
     let thinned = c.label.strip_prefix("byte").and_then(|r| r.split(':').next()).and_then(|p| p.parse::<usize>().ok()).map(|p| p % 5 != 0).unwrap_or(false);
     if !thinned {
         if let Some(l) = lays.iter().find(|l| l.iter().map(|p| p.len()).sum::<usize>() >= 3 && l.iter().flatten().filter(|c| **c).count() == 1 && !l[0][0] && !*l.last().unwrap().last().unwrap()) {
-            report.count("presentations", 1);
-            report.count("presentations_through_the_store_actor", 1);
+            report.count("presentations", 2);
+            report.count("presentations_through_the_store_actor", 2);
+            match catch(|| present_direct_via_actor(&cand, ok)) {
+                Err(p) => report.violation("no_panic", wit("direct via actor"), case("direct_actor", None, false), format!("panic: {p}"), ordinal),
+                Ok(bad) => {
+                    for (o, d) in bad {
+                        report.violation(o, wit("direct via actor"), case("direct_actor", None, false), format!("{}: {d}", c.label), ordinal);
+                    }
+                }
+            }
             let canonical = raw.encode();
             let _watch = crate::util::watch::enter("candidate inside a reconciliation message, through the store actor", case("message_actor", Some(l), false));
             match catch(|| present_in_message_via_actor(&canonical, &cand, ok, l)) {
@@ -1018,6 +1060,8 @@ fn replay(case: &Value) -> anyhow::Result<(bool, String)> {
         let base: Spec = serde_json::from_value(case["base"].clone())?;
         let original = base.signed();
         catch(|| present_direct(&cand, ok, Some(&original)))
+    } else if path == "direct_actor" {
+        catch(|| present_direct_via_actor(&cand, ok))
     } else if path == "message_actor" {
         let layout: Vec<Vec<bool>> = serde_json::from_value(case["layout"].clone())?;
         catch(|| present_in_message_via_actor(&bytes, &cand, ok, &layout).unwrap_or_default())
